@@ -153,6 +153,46 @@ def maybeAttach (T : Tables) (rq : Req) : Ex Bool :=
         | .raises e => if caught T T.attachGuard e then .ok false else .raises e
         | .blocks => .ok true
 
+/-- rows check, then `{f.name: column[0].as_py()}` -/
+def body (T : Tables) (rq : Req) : Ex Unit :=
+  if rq.ncols > 0 && rq.rows != 1 then .raises .RpcError
+  else match rq.asPy with
+    | .raises e => if caught T T.asPyGuard e then .raises .RpcError else .raises e
+    | _ => .ok ()
+
+/-- `resolve_shm_batch` (when there is a segment and the batch is a pointer), the body, and `finally: release_shm()` -/
+def resolveBody (T : Tables) (rq : Req) (hasSeg : Bool) : Ex Unit :=
+  match (if hasSeg && rq.isPointer then rq.resolve else Step.ok) with
+  | .raises e => if caught T T.pointerGuard e then .raises .RpcError else .raises e
+  | .blocks => .blocks
+  | .ok =>
+    -- an exception `release_shm()` lets out replaces the body's
+    if hasSeg && rq.isPointer then
+      match rq.release with
+      | .raises e => if caught T T.releaseGuard e then body T rq else .raises e
+      | _ => body T rq
+    else body T rq
+
+/-- request_shm = the static / cached segment, else (pointer batch only) the segment named in this request -/
+def segment (T : Tables) (rq : Req) : Ex Bool :=
+  if rq.staticShm then .ok true else if rq.isPointer then maybeAttach T rq else .ok false
+
+/-- `_read_request` after the stream has been drained: metadata checks, trace context, shm, kwargs -/
+def afterDrain (T : Tables) (rq : Req) : Ex Unit :=
+  if !rq.hasMethod then .raises .RpcError
+  else if rq.version = .absent then .raises .VersionError
+  else if rq.version = .other then .raises .VersionError
+  else if !rq.methodText && !caught T T.methodDecode .UnicodeDecodeError then .raises .UnicodeDecodeError
+  else if !rq.methodText then .raises .RpcError
+  else if rq.traceparent = .undecodable && !caught T T.traceDecode .UnicodeDecodeError then .raises .UnicodeDecodeError
+  else if rq.traceparent = .text && rq.tracestate = .undecodable && !caught T T.traceDecode .UnicodeDecodeError then
+    .raises .UnicodeDecodeError
+  else
+    match segment T rq with
+    | .raises e => .raises e
+    | .blocks => .blocks
+    | .ok hasSeg => resolveBody T rq hasSeg
+
 /-- `_read_request`: `ok` = returned `(method_name, kwargs)` with the stream read to its end -/
 def readRequest (T : Tables) (rq : Req) : Ex Unit :=
   match rq.openStream with
@@ -175,38 +215,7 @@ def readRequest (T : Tables) (rq : Req) : Ex Unit :=
   match drain T rq.laterReads with
   | .raises e => .raises e
   | .blocks => .blocks
-  | .ok =>
-  if !rq.hasMethod then .raises .RpcError
-  else if rq.version = .absent then .raises .VersionError
-  else if rq.version = .other then .raises .VersionError
-  else if !rq.methodText && !caught T T.methodDecode .UnicodeDecodeError then .raises .UnicodeDecodeError
-  else if !rq.methodText then .raises .RpcError
-  else if rq.traceparent = .undecodable && !caught T T.traceDecode .UnicodeDecodeError then .raises .UnicodeDecodeError
-  else if rq.traceparent = .text && rq.tracestate = .undecodable && !caught T T.traceDecode .UnicodeDecodeError then
-    .raises .UnicodeDecodeError
-  else
-    -- request_shm = static segment, else (pointer batch only) the segment named in this request
-    let seg : Ex Bool := if rq.staticShm then .ok true else if rq.isPointer then maybeAttach T rq else .ok false
-    match seg with
-    | .raises e => .raises e
-    | .blocks => .blocks
-    | .ok hasSeg =>
-      let res : Step := if hasSeg && rq.isPointer then rq.resolve else .ok
-      match res with
-      | .raises e => if caught T T.pointerGuard e then .raises .RpcError else .raises e
-      | .blocks => .blocks
-      | .ok =>
-        let body : Ex Unit :=
-          if rq.ncols > 0 && rq.rows != 1 then .raises .RpcError
-          else match rq.asPy with
-            | .raises e => if caught T T.asPyGuard e then .raises .RpcError else .raises e
-            | _ => .ok ()
-        -- `finally: release_shm()` when a pointer was resolved: an exception it lets out replaces the body's
-        if hasSeg && rq.isPointer then
-          match rq.release with
-          | .raises e => if caught T T.releaseGuard e then body else .raises e
-          | _ => body
-        else body
+  | .ok => afterDrain T rq
 
 structure Served where
   outcome : Outcome
